@@ -8,6 +8,7 @@ CONSTANTS
   Moves <- MovesAll
   BothMoves <- BothAll
   Energies = {0, 1, 2, 3, 4}
+  Ices = {1, 2}
   OffCone <- Angles
   MaxLevel = 12
 CONSTRAINT LevelBound
